@@ -307,8 +307,9 @@ class Check:
         if self.notes:
             ev["coverage"]["notes"] = self.notes
         ev["coverage"]["known_findings_reproduced"] = sorted(self.known_hits)
-        os.makedirs(os.path.join(ROOT, "evidence"), exist_ok=True)
-        json.dump(ev, open(os.path.join(ROOT, "evidence", self.prop + ".json"), "w"), indent=1)
+        evdir = os.environ.get("PV_EVIDENCE_DIR") or os.path.join(ROOT, "evidence")
+        os.makedirs(evdir, exist_ok=True)
+        json.dump(ev, open(os.path.join(evdir, self.prop + ".json"), "w"), indent=1)
         for kid, (k, _) in sorted(self.known_hits.items()):
             print("KNOWN-FINDING: property=%s %s: %s" % (self.prop, kid, k["description"]))
         seen = set()
